@@ -3,7 +3,7 @@
 # and, if confirmed, stores it as /verif/seeded/<ID>-<N>/
 set -u
 ID=$1; ROUND=${2:-1}
-if [ "$ROUND" = "8" ]; then WT=/tmp/wt8-$ID; SD=/tmp/seed8-$ID; OFF=14; elif [ "$ROUND" = "7" ]; then WT=/tmp/wt7-$ID; SD=/tmp/seed7-$ID; OFF=12; elif [ "$ROUND" = "6" ]; then WT=/tmp/wt6-$ID; SD=/tmp/seed6-$ID; OFF=10; elif [ "$ROUND" = "5" ]; then WT=/tmp/wt5-$ID; SD=/tmp/seed5-$ID; OFF=8; elif [ "$ROUND" = "4" ]; then WT=/tmp/wt4-$ID; SD=/tmp/seed4-$ID; OFF=6; elif [ "$ROUND" = "3" ]; then WT=/tmp/wt3-$ID; SD=/tmp/seed3-$ID; OFF=4; elif [ "$ROUND" = "2" ]; then WT=/tmp/wt2-$ID; SD=/tmp/seed2-$ID; OFF=2; else WT=/tmp/wt-$ID; SD=/tmp/seed-$ID; OFF=0; fi
+if [ "$ROUND" = "9" ]; then WT=/tmp/wt9-$ID; SD=/tmp/seed9-$ID; OFF=16; elif [ "$ROUND" = "8" ]; then WT=/tmp/wt8-$ID; SD=/tmp/seed8-$ID; OFF=14; elif [ "$ROUND" = "7" ]; then WT=/tmp/wt7-$ID; SD=/tmp/seed7-$ID; OFF=12; elif [ "$ROUND" = "6" ]; then WT=/tmp/wt6-$ID; SD=/tmp/seed6-$ID; OFF=10; elif [ "$ROUND" = "5" ]; then WT=/tmp/wt5-$ID; SD=/tmp/seed5-$ID; OFF=8; elif [ "$ROUND" = "4" ]; then WT=/tmp/wt4-$ID; SD=/tmp/seed4-$ID; OFF=6; elif [ "$ROUND" = "3" ]; then WT=/tmp/wt3-$ID; SD=/tmp/seed3-$ID; OFF=4; elif [ "$ROUND" = "2" ]; then WT=/tmp/wt2-$ID; SD=/tmp/seed2-$ID; OFF=2; else WT=/tmp/wt-$ID; SD=/tmp/seed-$ID; OFF=0; fi
 [ -d $WT ] || git -C /repo worktree add -f $WT HEAD >/dev/null 2>&1
 cd $WT && git checkout -q -- . 
 build() { cmake -G Ninja -B $WT/_build -S $WT -DCMAKE_BUILD_TYPE=RelWithDebInfo >/dev/null 2>&1 && cmake --build $WT/_build -j16 2>&1 | tail -3 | grep -iE "error|warning" ; return ${PIPESTATUS[0]}; }
